@@ -58,6 +58,11 @@ pub fn seeds() -> Vec<String> {
         "<ul><li><s>qa\u{a0}</s><br>qb</li></ul>",
         // content without any display width: only combining marks / zero-width spaces, empty tables in prefixed blocks
         "<p>qa<sup>2<em>qn</em></sup> qb<sup>17<a href=\"/1\">qo</a></sup> qc<sup><em>3</em>4</sup></p>",
+        // supplementary-plane (4-byte) wide characters, emoji sequences (ZWJ, variation selector, keycap)
+        "<p>a\u{1f600}b \u{1f600}\u{1f600} c\u{fe0f} 1\u{fe0f}\u{20e3} x</p>",
+        "<ul><li>\u{1f600}<a href=\"/\u{1f600}\">q\u{1f600}</a> <em>*</em>\u{fe0f}z</li></ul>",
+        "<table><tr><td>\u{1f600}</td><td>q\u{1f468}\u{200d}\u{1f469} r</td></tr></table>",
+        "<pre>\u{1f600}\t\u{1f600}\n#\u{fe0f}</pre>",
         "<ul><li>\u{301}</li></ul>",
         "<blockquote>\u{200b}</blockquote><ol><li>\u{301}\u{301} \u{301}</li></ol>",
         "<table><tr><td>\u{301}</td></tr></table>",
